@@ -9,6 +9,9 @@
 import ClairModel.Proofs.Arena
 import ClairModel.Proofs.ArenaHeld
 
+-- every variable of a property statement is bound explicitly: a misspelt name is an error, not a new variable
+set_option autoImplicit false
+
 namespace ClairModel.Props.C10
 open ClairModel ClairModel.Arena
 
